@@ -74,19 +74,40 @@ def table_relation(env, name, variables, kinds=("fin",), lo=None, hi=None, make=
     return rel, tab
 
 
-def matrix_relation(env, name, variables, kinds=("fin",), lo=None, hi=None):
-    """real NAryMatrixRelation with every cell an input"""
+INT_DTYPES = {"int8": (-2 ** 7, 2 ** 7 - 1), "int16": (-2 ** 15, 2 ** 15 - 1), "int32": (-2 ** 31, 2 ** 31 - 1), "int64": (-2 ** 63, 2 ** 63 - 1)}
+
+
+def _int_cell(env, name, dtype):
+    """a cell of an integer-typed table: mostly near the ends of the type's range (sums of two such cells leave the range)"""
+    lo, hi = INT_DTYPES[dtype]
+    where = env.choice("where:" + name, ["top", "bottom", "any", "any"])
+    if where == "top":
+        return hi - env.int(name, 0, 40)
+    if where == "bottom":
+        return lo + env.int(name, 0, 40)
+    return env.int(name, lo, hi)
+
+
+def matrix_relation(env, name, variables, kinds=("fin",), lo=None, hi=None, dtype=None):
+    """real NAryMatrixRelation with every cell an input.  ``dtype`` (sampled native runs only): the table is a numpy
+    array of that integer type, as a caller who writes ``np.array(..., dtype=np.int8)`` has it."""
     import numpy as np
     from pydcop.dcop.relations import NAryMatrixRelation
     shape = tuple(len(v.domain) for v in variables)
     cells = {}
     if env.symbolic:
         m = np.empty(shape, dtype=object)
+        dtype = None
+    elif dtype is not None:
+        m = np.zeros(shape, dtype=getattr(np, dtype))
     else:
         m = np.zeros(shape, dtype=np.float64)
     for idx in itertools.product(*[range(s) for s in shape]):
         key = tuple(variables[i].domain[j] for i, j in enumerate(idx))
-        c = env.ext_real("%s[%s]" % (name, ",".join(str(k) for k in key)), kinds, lo, hi)
+        if dtype is not None:
+            c = _int_cell(env, "%s[%s]" % (name, ",".join(str(k) for k in key)), dtype)
+        else:
+            c = env.ext_real("%s[%s]" % (name, ",".join(str(k) for k in key)), kinds, lo, hi)
         cells[key] = c
         m[idx] = c
     if shape == ():
